@@ -1,6 +1,7 @@
 import Uhppote.Model.Heap
 import Uhppote.Gen.Alias
 import Uhppote.Gen.Facts
+import Uhppote.Gen.Source
 /-! # C17 — clients are insulated from later input changes, results from network buffers (partial)
 
 Heap model with identity (`Model.Heap`) + the syntactic facts the translator reads off the
@@ -120,5 +121,10 @@ theorem C17_view_is_not_insulated :
 
 /-! non-vacuity -/
 example : (construct ⟨[[10, 11], [20]]⟩ [⟨405419896, 1, 2, 3, 0⟩, ⟨303986753, 4, 5, 6, 1⟩]).2.map (·.doors) = [2, 3] := by decide
+
+/-- the copy of the configuration taken at construction is never written again: no method of the client stores into
+    its receiver (regenerated list: empty) - so where requests go cannot come to depend on anything that happens after
+    construction -/
+theorem C17_config_never_written : Gen.Source.receiverWrites = [] := by decide
 
 end Uhppote.Props.C17
